@@ -86,7 +86,7 @@ ParamMap(S) ==
 RECURSIVE Sub(_, _), Cont(_, _, _), Settle(_)
 Sub(S, T) ==
   \/ S.k = "U" /\ Sub(Settle(S.a[1]), T) /\ Sub(Settle(S.a[2]), T)
-  \/ S.k \notin {"U", "Q"} /\ SameT(S, T)
+  \/ S.k \notin {"U", "Q", "QF"} /\ SameT(S, T)
   \/ S.k = "N"
   \/ IsTop(T)
   \/ T.k = "W" /\ T.n = "out" /\ Sub(S, T.a[1])
@@ -110,12 +110,13 @@ Cont(A, B, v) ==
 StripW(T) == IF T.k = "W" /\ T.a # <<>> THEN T.a[1] ELSE T
 \* ---- inference of omitted constructor type arguments (pending type  [k |-> "Q", n |-> class, a |-> argument natural types])
 Unk(x) == "?" \o x
-IsUnk(x) == \E c \in DOMAIN CT : \E j \in DOMAIN CT[c].tp : x = Unk(CT[c].tp[j].n)
+FunTPNames == UNION {{Ev[q].tps[j].n : j \in DOMAIN Ev[q].tps} : q \in {q \in DOMAIN Ev : Ev[q].ev = "Enter" /\ Ev[q].kind = "Fun"}}
+IsUnk(x) == (\E c \in DOMAIN CT : \E j \in DOMAIN CT[c].tp : x = Unk(CT[c].tp[j].n)) \/ (\E y \in FunTPNames : x = Unk(y))
 RECURSIVE SupersT(_)
 SupersT(T) == {T} \cup (IF Kind(T) = "C" /\ T.n \in DOMAIN CT THEN UNION {SupersT(Up(CT[T.n].sup[j], ParamMap(T))) : j \in DOMAIN CT[T.n].sup} ELSE {})
 RECURSIVE Bindings(_, _)
 Bindings(pat, act) ==
-  IF act.k \in {"N", "Q", "U", "MARK"} THEN {}
+  IF act.k \in {"N", "Q", "QF", "U", "MARK"} THEN {}
   ELSE IF pat.k = "V" THEN (IF IsUnk(pat.n) THEN {<<pat.n, act>>} ELSE {})
   ELSE IF pat.k = "W" THEN (IF pat.a = <<>> THEN {} ELSE IF act.k = "W" THEN (IF act.a = <<>> THEN {} ELSE Bindings(pat.a[1], act.a[1])) ELSE Bindings(pat.a[1], act))
   ELSE IF act.k = "W" THEN (IF act.a = <<>> THEN {} ELSE Bindings(pat, act.a[1]))
@@ -140,12 +141,34 @@ Resolve(Q, exp) ==
   IN [ok |-> \A j \in DOMAIN ps : sol2(j) # <<>>,
       t |-> Cls(Q.n, [j \in DOMAIN ps |-> IF sol2(j) = <<>> THEN Bot ELSE sol2(j)[1]]),
       src |-> [j \in DOMAIN ps |-> IF {b \in fromExp : b[1] = Unk(ps[j].n)} # {} THEN "exp" ELSE IF {b \in fromArgs : b[1] = Unk(ps[j].n)} # {} THEN "args" ELSE "none"]]
+SetToSeqBy(S) == [q \in 1..Cardinality(S) |-> CHOOSE x \in S : Cardinality({y \in S : y < x}) = q - 1]
+\* ---- inference of omitted type arguments of a generic call: pending type
+\*      [k |-> "QF", n |-> function, a |-> <<return type template, type-parameter list as V terms (with bounds)>> \o <<param template, argument type, ...>>]
+\* (templates mention the function's own type parameters as unknowns ?X).  Solved like Q: from the expected type first, then from
+\* the arguments; an unconstrained parameter is its bound / the top type in Java and Groovy, Nothing in Scala, and an error in Kotlin.
+ResolveF(Q, exp) ==
+  LET retT == Q.a[1]  tps == Q.a[2].a
+      pairs == {j \in 1..((Len(Q.a) - 2) \div 2) : TRUE}
+      fromExp == IF exp = <<>> THEN {} ELSE LET E == StripW(exp[1]) IN
+                 IF retT.k = "V" THEN Bindings(retT, E)
+                 ELSE IF Kind(E) # "C" \/ Kind(retT) # "C" THEN {} ELSE UNION {Bindings(g, E) : g \in {g \in SupersT(retT) : g.n = E.n}}
+      fromArgs == UNION {Bindings(Q.a[2 * j + 1], Q.a[2 * j + 2]) : j \in pairs}
+      sol(x) == LET be == {b \in fromExp : b[1] = Unk(x)}  ba == {b \in fromArgs : b[1] = Unk(x)} IN
+                IF be # {} THEN <<(CHOOSE b \in be : TRUE)[2]>> ELSE IF ba # {} THEN <<(CHOOSE b \in ba : TRUE)[2]>> ELSE <<>>
+      m1 == [x \in {Unk(tps[j].n) : j \in {j \in DOMAIN tps : sol(tps[j].n) # <<>>}} |-> sol(CHOOSE y \in {tps[j].n : j \in DOMAIN tps} : Unk(y) = x)[1]]
+      sol2(j) == IF sol(tps[j].n) # <<>> THEN sol(tps[j].n)
+                 ELSE IF P.lang = "scala" THEN <<Bot>>
+                 ELSE IF P.lang = "kotlin" THEN <<>>
+                 ELSE IF tps[j].a # <<>> THEN <<Subst(tps[j].a[1], m1)>> ELSE <<TopT>>
+      m2 == [x \in {Unk(tps[j].n) : j \in DOMAIN tps} |-> LET j == CHOOSE j \in DOMAIN tps : Unk(tps[j].n) = x IN IF sol2(j) = <<>> THEN Bot ELSE sol2(j)[1]]
+  IN [ok |-> \A j \in DOMAIN tps : sol2(j) # <<>>, t |-> Subst(retT, m2)]
 RECURSIVE Assignable(_, _)
 Assignable(S, T) ==
   IF S.k = "U" THEN Assignable(S.a[1], T) /\ Assignable(S.a[2], T)
   ELSE IF S.k = "Q" THEN (LET R == Resolve(S, <<T>>) IN R.ok /\ Sub(R.t, StripW(T)))
+  ELSE IF S.k = "QF" THEN (LET R == ResolveF(S, <<T>>) IN R.ok /\ Sub(StripW(R.t), StripW(T)))
   ELSE Sub(StripW(S), StripW(T))
-Settle(S) == IF S.k = "Q" THEN Resolve(S, <<>>).t ELSE S     \* consumer without an expected type
+Settle(S) == IF S.k = "Q" THEN Resolve(S, <<>>).t ELSE IF S.k = "QF" THEN ResolveF(S, <<>>).t ELSE S     \* consumer without an expected type
 
 \* ---------------------------------------------------------------- bounds of explicit type arguments
 Plain(a) == IF a.k = "W" /\ a.a # <<>> THEN a.a[1] ELSE a
@@ -163,7 +186,7 @@ ChkB(T, x) == {<<p, i, "TypeArgWithinBound", x \o ":" \o bb[1] \o "." \o bb[2], 
 
 \* ---------------------------------------------------------------- members
 This(c) == Cls(c, [j \in DOMAIN CT[c].tp |-> Var(CT[c].tp[j].n, CT[c].tp[j].b)])
-Strip(T) == IF T.k \in {"V", "W"} /\ T.a # <<>> THEN T.a[1] ELSE IF T.k = "U" THEN T.a[3] ELSE IF T.k = "Q" THEN Resolve(T, <<>>).t ELSE T
+Strip(T) == IF T.k \in {"V", "W"} /\ T.a # <<>> THEN T.a[1] ELSE IF T.k = "U" THEN T.a[3] ELSE IF T.k = "Q" THEN Resolve(T, <<>>).t ELSE IF T.k = "QF" THEN ResolveF(T, <<>>).t ELSE T
 
 RECURSIVE FieldT(_, _)
 FieldT(T0, f) ==
@@ -373,6 +396,7 @@ Step ==
                             \cup ChkTV(rec, e.name) \cup ChkName(e.name)
                             \cup (IF Len(scopes) = 1 THEN {} ELSE ChkFresh(e.name))
                             \cup (IF infer /\ Peek(0).k = "Q" /\ ~Resolve(Peek(0), <<>>).ok THEN {<<p, i, "TypeArgsNotInferable", e.name, Peek(0), Bot>>} ELSE {})
+                            \cup (IF infer /\ Peek(0).k = "QF" /\ ~ResolveF(Peek(0), <<>>).ok THEN {<<p, i, "TypeArgsNotInferable.Call", e.name, Peek(0).a[1], Bot>>} ELSE {})
                             \cup (IF infer /\ nat.k = "N" THEN {<<p, i, "VarTypeNotInferable", e.name, Bot, rec>>} ELSE {})
        [] e.ev = "Const" -> /\ UNCHANGED <<scopes, viol>> /\ ts' = Push(ts, ConstT(e))
        [] e.ev = "Bottom" -> /\ UNCHANGED <<scopes, viol>> /\ ts' = Push(ts, IF e.t = <<>> THEN Bot ELSE StripW(e.t[1]))
@@ -432,7 +456,18 @@ Step ==
             /\ IF r = <<>> THEN /\ ts' = Push(Pop(e.nk + nrecv), Bot)
                                 /\ viol' = viol \cup Chk(botrecv, "Resolved.Fun", e.name)
                ELSE LET fr == r[1].f  m == FunMap(fr, r[1].m, e.targs) IN
-                    /\ ts' = Push(Pop(e.nk + nrecv), IF fr.ret = <<>> THEN Bot ELSE Up(fr.ret[1], m))
+                    /\ ts' = Push(Pop(e.nk + nrecv),
+                                  IF fr.ret = <<>> THEN Bot
+                                  ELSE IF Mode = "inference" /\ e.infer /\ fr.tp # <<>> /\ Len(fr.tp) = Len(e.targs)
+                                  THEN LET um == [x \in (DOMAIN r[1].m) \cup {fr.tp[j].n : j \in DOMAIN fr.tp} |->
+                                                    IF x \in {fr.tp[j].n : j \in DOMAIN fr.tp} THEN Var(Unk(x), <<>>) ELSE r[1].m[x]]
+                                           given == {j \in 1..e.nk : ParamFor(fr, e.argnames, j) # <<>>}
+                                           gs == SetToSeqBy(given) IN
+                                       [k |-> "QF", n |-> e.name,
+                                        a |-> <<Up(fr.ret[1], um), Cls("", [j \in DOMAIN fr.tp |-> Var(fr.tp[j].n, IF fr.tp[j].b = <<>> THEN <<>> ELSE <<Up(fr.tp[j].b[1], um)>>)])>>
+                                              \o [q \in 1..(2 * Len(gs)) |-> IF q % 2 = 1 THEN Up(ParamFor(fr, e.argnames, gs[(q + 1) \div 2])[1].t, um)
+                                                                                ELSE Settle(Peek(e.nk - gs[q \div 2]))]]
+                                  ELSE Up(fr.ret[1], m))
                     /\ viol' = viol \cup Chk(Covered(fr, e.argnames, IF e.recv THEN Peek(e.nk) ELSE Bot, e.recv), "ArityAdmitted.Call", e.name)
                                     \cup Chk(Len(fr.tp) = Len(e.targs), "ArityAdmitted.TypeArgs", e.name)
                                     \cup (IF Len(fr.tp) = Len(e.targs)
